@@ -310,3 +310,100 @@ mutant("c02-offline-frame-by-frame", "C02", "C02-D1", "client_socket.go",
 				s.sendBuffer = append(s.sendBuffer, b)
 				s.sendBufferMu.Unlock()
 			}""")
+
+# ---------------------------------------------------------------- C01
+mutant("c01-drop-parserMu", "C01", "C01-D3", "server_conn.go",
+       """func (c *serverConn) onEIOPacket(packets ...*eioparser.Packet) {
+	c.parserMu.Lock()
+	defer c.parserMu.Unlock()
+""",
+       """func (c *serverConn) onEIOPacket(packets ...*eioparser.Packet) {
+""")
+mutant("c01-skip-binary-frames", "C01", "C01-D2", "server_conn.go",
+       "		if packet.Type == eioparser.PacketTypeMessage {", "		if packet.Type == eioparser.PacketTypeMessage && !packet.IsBinary {")
+mutant("c01-handlers-by-namespace", "C01", "C01-D4", "server_socket.go",
+       "range s.eventHandlers.getAll(eventName) {", "range s.eventHandlers.getAll(header.Namespace) {")
+mutant("c01-encode-error-dropped", "C01", "C01-D1", "server_socket.go",
+       """		buffers, err := s.parser.Encode(header, &v)
+		if err != nil {
+			s.onError(wrapInternalError(err))
+			return
+		}
+		s.conn.sendBuffers(buffers...)""",
+       """		buffers, _ := s.parser.Encode(header, &v)
+		s.conn.sendBuffers(buffers...)""")
+mutant("c01-enqueue-despite-error", "C01", "C01-D1", "client_socket.go",
+       """	buffers, err := s.parser.Encode(&header, &v)
+	if err != nil {
+		s.onError(wrapInternalError(err))
+		return
+	}
+
+	s.sendBuffers(volatile, false, header.ID, buffers...)""",
+       """	buffers, err := s.parser.Encode(&header, &v)
+	if err != nil {
+		s.onError(wrapInternalError(err))
+	}
+
+	s.sendBuffers(volatile, false, header.ID, buffers...)""")
+mutant("c01-loop-break-on-nonmessage", "C01", "C01-D2", "client_manager.go",
+       """		case eioparser.PacketTypePing:
+			m.pingHandlers.forEach(func(handler *ManagerPingFunc) { (*handler)() }, true)""",
+       """		case eioparser.PacketTypePing:
+			m.pingHandlers.forEach(func(handler *ManagerPingFunc) { (*handler)() }, true)
+			return""")
+mutant("c01-client-lookup-default-nsp", "C01", "C01-D4", "client_manager.go",
+       "	socket, ok := m.sockets.get(header.Namespace)\n	if !ok {\n		return\n	}\n	go socket.onPacket",
+       "	socket, ok := m.sockets.get(\"/\")\n	if !ok {\n		return\n	}\n	go socket.onPacket")
+mutant("c01-reset-without-lock", "C01", "C01-D3", "client_manager.go",
+       """func (m *Manager) resetParser() {
+	m.parserMu.Lock()
+	defer m.parserMu.Unlock()
+	m.parser.Reset()""",
+       """func (m *Manager) resetParser() {
+	m.parser.Reset()""")
+mutant("c01-ws-client-no-readlimit", "C01", "C01-D5", "engine.io/transport/websocket/client.go",
+       "	t.conn.SetReadLimit(-1)\n", "")
+
+# ---------------------------------------------------------------- C13
+mutant("c13-no-body-limiter", "C13", "C13-D1", "engine.io/transport/polling/server.go",
+       "		r.Body = http.MaxBytesReader(w, r.Body, t.maxHTTPBufferSize)\n", "		_ = http.MaxBytesReader\n")
+mutant("c13-reads-body-taken-before-limiter", "C13", "C13-D1", "engine.io/transport/polling/server.go",
+       "func (t *ServerTransport) handleDataRequest(w http.ResponseWriter, r *http.Request) {\n",
+       "func (t *ServerTransport) handleDataRequest(w http.ResponseWriter, r *http.Request) {\n	body := r.Body\n", )
+MUTANTS[-1]["then"] = ("		packets, err = parser.DecodePayloads(r.Body)", "		packets, err = parser.DecodePayloads(body)")
+mutant("c13-ws-server-no-readlimit-when-disabled", "C13", "C13-D2", "engine.io/transport/websocket/server.go",
+       """	} else {
+		// The limit is disabled. Without this, the default limit of the library (32768 bytes) would apply.
+		t.conn.SetReadLimit(-1)
+	}""",
+       """	}""")
+mutant("c13-ws-server-unlimited-always", "C13", "C13-D2", "engine.io/transport/websocket/server.go",
+       "		t.conn.SetReadLimit(t.readLimit)\n", "		t.conn.SetReadLimit(-1)\n")
+mutant("c13-const-limit-to-transport", "C13", "C13-D4", "engine.io/server.go",
+       "		t = polling.NewServerTransport(c, s.maxBufferSize, s.PollTimeout())", "		t = polling.NewServerTransport(c, defaultMaxBufferSize, s.PollTimeout())")
+mutant("c13-announce-other-value", "C13", "C13-D4", "engine.io/server.go",
+       "		MaxPayload:   int64(s.maxBufferSize),", "		MaxPayload:   int64(defaultMaxBufferSize),")
+mutant("c13-batcher-reset-zero", "C13", "C13-D3", "engine.io/client_socket.go",
+       "				i, count = -1, count-1", "				i, count = 0, count-1")
+mutant("c13-batcher-drops-at-cut", "C13", "C13-D3", "engine.io/client_socket.go",
+       "				packets = packets[i:]\n", "				packets = packets[i+1:]\n")
+mutant("c13-webtransport-unlimited", "C13", "C13-D1", "engine.io/transport/webtransport/server.go",
+       "	return nextPacketWithLimit(t.limitedReader, t.readLimit)", "	return nextPacketWithLimit(t.limitedReader, 0)")
+mutant("c13-wt-limit-after-alloc", "C13", "C13-D1", "engine.io/transport/webtransport/packet.go",
+       """			if limit > 0 && int64(expectedLen) > limit {
+				return nil, ErrLimitReached
+			}
+			return parser.DecodeWithLen(r, isBinary, expectedLen)""",
+       """			p, err := parser.DecodeWithLen(r, isBinary, expectedLen)
+			if limit > 0 && int64(expectedLen) > limit {
+				return nil, ErrLimitReached
+			}
+			return p, err""")
+mutant("c13-declared-oversize-still-read", "C13", "C13-D1", "engine.io/transport/polling/server.go",
+       """		r.Close = true
+		r.Body.Close()
+		return
+	}""",
+       """		r.Close = true
+	}""")
